@@ -21,7 +21,7 @@ TEXT = {
  "C13": ("model-based stateful PBT of Channel against the (taken, committed, replay) model in virtual poll time; porcupine linearizability of free-running programs and of a barrier-synchronised two-party race lane; contiguous-snapshot oracle for Buffer() under bulk load", "stateful property-based testing vs reference model + linearizability checking of generated concurrent histories (rapid + testing/synctest + porcupine)"),
  "C14": ("model-based stepper over Workers with gated tasks: exactly-once, result identity, concurrency bound, no starvation and Wait/Count semantics decided at exact quiescence", "stateful property-based testing with gated callbacks (rapid + testing/synctest)"),
  "C15": ("model-based stepper over Notifier: eligible-set delivery exactly once, enabledness of Publish at quiescence, nothing to non-members, registry panics without side effects, leak oracle", "stateful property-based testing vs reference model (rapid + testing/synctest)"),
- "C16": ("generated input-context sets and simultaneous-cancellation steps (real parallelism + a gate on the primary hook) against the documented cancellation/value/exactly-once semantics", "stateful property-based testing with simultaneous-cancel steps (rapid + testing/synctest)"),
+ "C16": ("generated input-context sets and simultaneous-cancellation steps (real parallelism + a gate on the primary hook) against the documented cancellation/value/exactly-once semantics; plus a bubble-free engine for the construction-time and value semantics, built with both toolchains", "stateful property-based testing with simultaneous-cancel steps (rapid + testing/synctest)"),
  "C17": ("stepper plus free-running modes over Worker with an instance function stamping start/stop-seen/exit; overlap, held-instance, stop-after-all-done and hand-over oracles", "stateful + concurrent-program property-based testing (rapid + testing/synctest)"),
  "C18": ("stepper in virtual time over ExponentialRetry with scripted outcomes and planned cancellations against the sequential specification of the doc comment", "stateful property-based testing in virtual time (rapid + testing/synctest)"),
  "C20": ("stepper in virtual time over LinearAttempt with generated receiver paces and cancellation instants (incl. exact tick ties) against the documented channel behaviour", "stateful property-based testing in virtual time (rapid + testing/synctest)"),
